@@ -184,6 +184,7 @@ class IdleMomentsGauge:
                         len(op.qubits) == 1
                         and tags_to_ignore.isdisjoint(op.tags)
                         and op.gate is not None
+                        and protocols.has_unitary(op.gate)
                     )
                     for q in op.qubits:
                         active_moments[q].append((m_id, is_mergeable))
